@@ -354,9 +354,11 @@ def sliding_obligations(res: Result, tree):
     res.add("C17.R5", init.loc(), short(ea.cls.qual) + ".__init__", "environment goal and generator start both come from Generator.make_solved_puzzle",
             bool(mk_solved is not None and uses_env and uses_gen), f"env uses it: {uses_env}; RandomWalkGenerator uses it: {uses_gen}")
     # random walk draws legal moves only
-    if rw is None or "_make_random_move" not in rw.methods:
-        raise AnalysisError("RandomWalkGenerator._make_random_move not found")
-    g = rw.methods["_make_random_move"]
+    cands = [m_ for nm_, m_ in (rw.methods.items() if rw is not None else []) if nm_ != "__call__" and len(m_.params) >= 4 and
+             any(isinstance(n, ast.Call) and ast.unparse(n.func).endswith("random.choice") for n in ast.walk(m_.node))]
+    if len(cands) != 1:
+        raise AnalysisError(f"RandomWalkGenerator: expected one helper drawing the random move (jax.random.choice), found {[c.name for c in cands]}")
+    g = cands[0]
     v2 = VFG(tree, Model(tree))
     self_t = mk("self", rw.qual)
     k, p, e = (mk("param", g.qual, x) for x in g.params[1:4])
@@ -373,7 +375,7 @@ def sliding_obligations(res: Result, tree):
         inb = pr is not None and ext_name(strip_cast(pr)) == "jax.numpy.all" and contains(pr, moves_t) and contains(pr, e)
         ok = src is moves_t and bool(inb)
         why = f"choice over MOVES: {src is moves_t}; p = in-bounds test of blank + MOVES: {bool(inb)}"
-    res.add("C17.R5", g.loc(), "sliding_tile_puzzle.generator.RandomWalkGenerator._make_random_move", "scramble moves are drawn from MOVES with the in-bounds mask as probabilities", ok, why)
+    res.add("C17.R5", g.loc(), short(g.qual), "scramble moves are drawn from MOVES with the in-bounds mask as probabilities", ok, why)
     # the generated puzzle is exactly the result of the random walk from the solved board (nothing applied afterwards)
     call = rw.methods.get("__call__")
     if call is None:
@@ -383,8 +385,19 @@ def sliding_obligations(res: Result, tree):
     st = uncopy(v3.apply_func(call, self_t, rw, [kk], {}, None, None))
     pz = v3.mk_attr(st, "puzzle")
     ep = v3.mk_attr(st, "empty_tile_position")
-    solved = v3.mk_attr(self_t, "_solved_puzzle")
-    okw = pz.kind == "loop" and uncopy(pz.args[0]) is solved and ep.kind == "loop"
+    # the attribute(s) in which __init__ keeps the solved board (the result of make_solved_puzzle), by role
+    rinit = tree.find_method(rw, "__init__")
+    solved_attrs = set()
+    if rinit is not None:
+        for stn in ast.walk(rinit.node):
+            if isinstance(stn, ast.Assign) and isinstance(stn.value, ast.Call) and isinstance(stn.value.func, ast.Attribute) and stn.value.func.attr == "make_solved_puzzle":
+                for tg in stn.targets:
+                    if isinstance(tg, ast.Attribute) and isinstance(tg.value, ast.Name) and tg.value.id == "self":
+                        solved_attrs.add(tg.attr)
+    start = uncopy(pz.args[0]) if pz.kind == "loop" else None
+    from_solved = start is not None and ((start.kind == "attr" and start.args[0] is self_t and start.args[1] in solved_attrs) or
+                                         (start.kind == "call" and start.args[0].kind == "attr" and start.args[0].args[1] == "make_solved_puzzle"))
+    okw = pz.kind == "loop" and bool(from_solved) and ep.kind == "loop"
     # the walk body: an exchange of the blank with the drawn neighbour only
     res.add("C17.R5", call.loc(), "sliding_tile_puzzle.generator.RandomWalkGenerator.__call__", "the start position is the random walk applied to the solved board, with nothing applied afterwards", okw,
             txt(pz, 3, 140) if okw else f"{txt(pz, 3, 160)} -- the board is modified outside the legal random walk (parity / reachability is no longer guaranteed)")
